@@ -68,3 +68,18 @@ func Play(h *History, o PlayOpts) (*chainsim.Chain, error) {
 	}
 	return c, nil
 }
+
+// PlayRange plays blocks [from, to) of h on an already initialised chain
+// (used to continue a history in another process).
+func PlayRange(c *chainsim.Chain, h *History, from, to int) {
+	for i := from; i < to && i < len(h.Blocks); i++ {
+		c.BeginBlock()
+		for _, t := range h.Blocks[i] {
+			tr := PlayTx(c, t)
+			if chainsim.AntePassed(tr) {
+				c.Acc(t.Signer).Seq++
+			}
+		}
+		c.EndBlockCommit()
+	}
+}
